@@ -81,29 +81,17 @@ def run(ctx, report: Report) -> None:
     _, gtn = src.func('css_match._DocumentNav.get_tag_name')
     spellings = ['div', 'DIV', 'Div']
     first_bad = None
+    from ..interp import Obj, Raised, call_function
+    from ..tables import NSKey, el_obj, matcher_obj
     for is_xml in (False, True):
-        def consts(name, _x=is_xml):
-            if name == 'self.is_xml':
-                return _x
-            raise KeyError(name)
         for sel_name in spellings + ['*', 'span']:
             for doc_name in spellings:
-                def run_get_tag(el, _d=doc_name):
-                    env = {'self': miniev.Sym('self'), get_tag.args.args[1].arg: el}
-                    return miniev.MiniEval(env, consts=consts, calls={'self.get_tag_name': lambda e: _d,
-                                                                       'util.lower': eval_lower}).run(get_tag.body)
-                tagp = tagname.args.args[2].arg
-
-                def tconsts(name, _s=sel_name, _x=is_xml):
-                    if name == f'{tagp}.name':
-                        return _s
-                    if name == 'self.is_xml':
-                        return _x
-                    raise KeyError(name)
-                env = {'self': miniev.Sym('self'), tagname.args.args[1].arg: miniev.Sym('el'), tagp: miniev.Sym('tag')}
                 try:
-                    got = bool(miniev.MiniEval(env, consts=tconsts, calls={'self.get_tag': run_get_tag,
-                                                                           'util.lower': eval_lower}).run(tagname.body))
+                    got = bool(call_function(ctx, 'css_match.CSSMatch.match_tagname',
+                                             [el_obj(doc_name, is_xml=is_xml), Obj(_name='SelectorTag', name=sel_name, prefix=None)],
+                                             {}, {}, matcher_obj(is_xml=is_xml, is_html=not is_xml)))
+                except Raised as e:
+                    got = f'raises {e.exc_name}'
                 except miniev.Unsupported as e:
                     raise AnalysisError(f'match_tagname/get_tag: outside the evaluable fragment: {e}')
                 if sel_name == '*':
@@ -126,23 +114,15 @@ def run(ctx, report: Report) -> None:
             for prefix in ('', '*', 'p'):
                 for sel_attr in ('href', 'HREF', 'Href'):
                     for key in ('href', 'HREF', 'x:HREF'):
-                        attrs = [(key, 'v')]
                         nsmap = {'p': U1}
-
-                        def consts(name, _x=is_xml):
-                            if name == 'self.is_xml':
-                                return _x
-                            if name == 'self.namespaces':
-                                return nsmap
-                            raise KeyError(name)
-                        calls = {'self.supports_namespaces': lambda _s=supports: _s,
-                                 'self.namespaces.get': lambda k, d=None: nsmap.get(k, d),
-                                 'self.iter_attributes': lambda e, _a=attrs: list(_a),
-                                 'self.split_namespace': lambda e, k: kinds[k],
-                                 'util.lower': eval_lower}
-                        env = {'self': miniev.Sym('self'), p_el: miniev.Sym('el'), p_attr: sel_attr, p_prefix: prefix}
+                        k_ = NSKey(key, *kinds[key]) if kinds[key][0] is not None else key
                         try:
-                            got = miniev.MiniEval(env, consts=consts, calls=calls).run(man.body)
+                            got = call_function(ctx, 'css_match.CSSMatch.match_attribute_name',
+                                                [el_obj('e', attrs={k_: 'v'}, is_xml=is_xml), sel_attr, prefix], {},
+                                                {'css_match.CSSMatch.supports_namespaces': lambda _s=supports: _s},
+                                                matcher_obj(is_xml=is_xml, is_html=not is_xml, namespaces=nsmap))
+                        except Raised as e:
+                            got = f'raises {e.exc_name}'
                         except miniev.Unsupported as e:
                             raise AnalysisError(f'match_attribute_name: outside the evaluable fragment: {e}')
 
@@ -169,18 +149,11 @@ def run(ctx, report: Report) -> None:
     pe, pn, pd = [a.arg for a in gabn.args.args[1:4]]
     for is_xml in (False, True):
         for key in ('id', 'ID', 'Id'):
-            attrs = {key: 'v'}
-
-            def consts(name, _x=is_xml):
-                if name == f'{pe}._is_xml':
-                    return _x
-                if name == f'{pe}.attrs':
-                    return attrs
-                raise KeyError(name)
-            env = {'cls': miniev.Sym('cls'), pe: miniev.Sym('el'), pn: 'id', pd: None}
             try:
-                got = miniev.MiniEval(env, consts=consts, calls={'cls.normalize_value': lambda v: v, 'util.lower': eval_lower,
-                                                                   f'{pe}.attrs.items': lambda: list(attrs.items())}).run(gabn.body)
+                got = call_function(ctx, 'css_match._DocumentNav.get_attribute_by_name',
+                                    [el_obj('e', attrs={key: 'v'}, is_xml=is_xml), 'id', None], {}, {}, None)
+            except Raised as e:
+                got = f'raises {e.exc_name}'
             except miniev.Unsupported as e:
                 raise AnalysisError(f'get_attribute_by_name: outside the evaluable fragment: {e}')
             exp = (key == 'id') if is_xml else True
